@@ -100,8 +100,9 @@ def run_verus_unit(u, scratch, tier, extra_flags=()):
     res["report"] = built.report
     res["assumptions"] = built.assumptions
     flags = list(VERUS_FLAGS)
-    if u.get("rlimit"):
-        flags += ["--rlimit", str(u["rlimit"])]
+    # default budget 3x Verus' own (10): a proof that is close to the limit must not flip to "undecided" because an
+    # unrelated edit elsewhere in the unit perturbed the solver
+    flags += ["--rlimit", str(u.get("rlimit") or 30)]
     flags += list(extra_flags)
     cmd = ["verus", src] + flags
     res["cmd"] = " ".join(cmd)
